@@ -5,6 +5,7 @@
 // ASSUME: the pool object is a harness fake (signals[] point to each modelled thread's real thread_local my_box; mi.maxThreads=3); the master body replicates ThreadPool::runInternal and the worker body ThreadPool::threadLoop with the std::function 'work' replaced by a direct call; per_signal::wait/wakeup, cascade() and decascade() are the real code; 'fast mode' (burnPower) only - the mutex/condition-variable mode is not encoded
 // ASSUME: workers run exactly as many loop iterations as regions in which they are woken (a worker that is never woken again stays in wait() forever in the real pool; here it ends)
 // OB: ob_fork_join_fast tier=attic unwind=90 timeout=2400 solver=cadical bounds="T=3 pool threads, two consecutive regions with num=3 then num=2, fast mode, 70 steps" desc="the work function runs exactly once on each tid < num and on no other; the master returns only after all of them finished; the second region is unaffected by the first; no deadlock; region entry and return are happens-before edges for plain data"
+// OB: ob_fork_join_T2 tier=attic unwind=60 timeout=1200 solver=cadical mem_gb=8 bounds="pool threads 0 and 1, ONE region with num=2, fast mode, 40 steps" desc="the work function runs exactly once on tid 0 and tid 1; the master returns only after the worker finished; region entry (master's writes -> worker) and region exit (worker's writes -> master after the join) are happens-before edges for plain data under the C++ memory orders in the code; no deadlock"
 #include "vf.h"
 #include "vf_nodie.h"
 #include <condition_variable>
@@ -31,6 +32,7 @@ static ThreadPool& pool() { return vf_fake_pool.tp; }
 using namespace galois::substrate;
 
 extern "C" void vf_sched_fj(unsigned n, unsigned steps);
+extern "C" void vf_sched_fj2(unsigned n, unsigned steps);
 
 namespace {
 constexpr unsigned R = 2;
@@ -94,6 +96,58 @@ extern "C" void vf_thread_fj(unsigned tid) {
       // ---
     }
   }
+}
+
+extern "C" void vf_tinit_fj2(unsigned tid) {
+  auto& me       = ThreadPool::my_box;
+  me.topo.tid    = tid;
+  me.done        = 1; // state after ThreadPool::initThread
+  me.fastRelease = 0;
+  me.wbegin = me.wend = 0;
+  vfg_box[tid]        = &me;
+  pool().signals[tid] = &me; // ThreadPool::initThread: signals[tid] = &my_box
+  vf_hb_register(&me.done);
+  vf_hb_register(&me.fastRelease);
+}
+
+extern "C" void vf_thread_fj2(unsigned tid) {
+  ThreadPool& tp = pool();
+  auto& me       = ThreadPool::my_box;
+  if (tid == 0) {
+    vf_hb_write(&vfg_in[0]);
+    vfg_in[0] = 1;
+    // --- ThreadPool::runInternal(2), fast mode
+    me.wbegin = 1;
+    me.wend   = 2;
+    tp.cascade(true);
+    work(0, 0);
+    tp.decascade();
+    // ---
+    for (unsigned u = 0; u < 2; ++u) {
+      vf_assert(vfg_count[u][0] == 1u, "when the master returns, the work function ran exactly once on each tid < num");
+      vf_hb_read(&vfg_out[u][0]);
+      vf_assert(vfg_out[u][0] == (int)(10 * u), "master does not see data written by a worker in the region");
+    }
+  } else if (tid == 1) {
+    me.wait(true);
+    // the mailbox range is checked and then re-written with the checked constants: to the solver the plain fields are
+    // 'old or new value depending on the schedule', and signals[me.wbegin] would be a symbolic-index dereference
+    vf_assert(me.wbegin == 2 && me.wend == 2, "the woken thread's mailbox does not hold the sub-range its parent assigned (2..2 for tid 1 of 2)");
+    me.wbegin = 2;
+    me.wend   = 2;
+    tp.cascade(true);
+    work(1, 0);
+    tp.decascade();
+  }
+}
+
+OB(fork_join_T2) {
+  ThreadPool& tp   = pool();
+  tp.mi.maxThreads = 2;
+  new (&tp.signals) std::vector<ThreadPool::per_signal*>();
+  tp.signals.resize(3);
+  vf_sched_fj2(2, 40);
+  for (unsigned u = 0; u < 2; ++u) VF_CHECKM(vfg_count[u][0] == 1u, "exactly once per tid < num");
 }
 
 OB(fork_join_fast) {
